@@ -28,6 +28,21 @@ CHECKS = {
         note='Trusts the simulated device model (written from the firmware TOC protocol) and the scheduler shims.',
         technique='trace monitor at the connected callback vs. device ground truth, under a deterministic thread scheduler',
         engine='detsched+simcf', design='DESIGN.md §3 C03'),
+    'C02': dict(
+        level='fault_enumeration',
+        text=('Every public lifecycle Caller of a real Crazyflie (and the blocking SyncCrazyflie calls) is recorded while '
+              'the real library threads run under the deterministic scheduler against the simulated device. For each '
+              'device profile, api (sync/async), trigger (link error at the k-th sent packet, after the k-th received '
+              'packet, close_link from a user thread when k packets were sent, close_link from inside a lifecycle '
+              'callback), reporter (driver thread / sending thread) the trigger position k is enumerated over the whole '
+              'fault-free handshake, under run-to-block, random, PCT and line-pre-empting schedules, each followed by a '
+              'healthy reconnect on the same object. The trace specification R1-R9 judges the observed event sequence; '
+              'hangs are scheduler deadlock / virtual-time-horizon verdicts with the blocked-thread table as witness.'),
+        note=('Fault positions are exhaustive per profile; schedules are sampled. Bounded time = 150 virtual seconds per '
+              'blocking call. One open known finding (unsynchronised dispatch vs. disconnect) masks anomalies only in runs '
+              'where its precondition was observed by a detector.'),
+        technique='online trace specification over recorded lifecycle events; deadlock/horizon detection by a deterministic scheduler; fault-position enumeration',
+        engine='detsched+simcf', design='DESIGN.md §3 C02'),
 }
 
 PENDING_REASON = ('check not built yet in this work session (design in DESIGN.md §3); nothing is claimed for it '
